@@ -109,6 +109,10 @@ def enumerate_cases(tier, shard=0, nshards=1):
             for sp in sps:
                 out.append({'k': 'register', 'n': n, 'spelling': sp,
                             'ty': ty})
+    for fn in ('AND', 'OR', 'NOT', 'IF', 'SUM', 'LEN'):
+        for order in (['builtin', 'user'], ['user', 'builtin'], ['user'],
+                      ['builtin', 'user', 'builtin']):
+            out.append({'k': 'override', 'fn': fn, 'order': order})
     for i, c in enumerate(out):
         if i % nshards == shard:
             yield c
@@ -258,7 +262,59 @@ def judge(case):
         return _name(case, res)
     if k == 'arith':
         return _arith(case, res)
+    if k == 'override':
+        return _override(case, res)
     return _register(case, res)
+
+
+def _override(case, res):
+    """a user function put into ONE evaluator's namespace under the name of
+    a built-in (also of the lazily evaluated AND / OR / NOT / IF): that
+    evaluator calls the user's function with evaluated VALUES, evaluators
+    with the default namespace keep the built-in."""
+    xl = lib.lib()
+    fn, order = case['fn'], case['order']
+    res.nontrivial = True
+
+    def user(*values):
+        # counts the arguments that are truthy VALUES (not wrapper objects)
+        n = 0
+        for v in values:
+            if isinstance(v, (xl.Number, xl.Boolean, xl.Text, xl.Blank, int,
+                              float, bool, str)) and bool(v):
+                n += 1
+            elif not isinstance(v, (xl.Number, xl.Boolean, xl.Text, xl.Blank,
+                                    int, float, bool, str, type(None))):
+                n += 100        # something that is not a value at all
+        return n
+    args = {'AND': 'A1>5,A2>5,A3', 'OR': 'A1>5,A3,A2>5', 'NOT': 'A1>5',
+            'IF': 'A1>5,A2,A3', 'SUM': 'A1,A2,A3', 'LEN': 'A1'}[fn]
+    want_user = {'AND': 0, 'OR': 0, 'NOT': 0, 'IF': 1, 'SUM': 2,
+                 'LEN': 1}[fn]
+    d = {'Sheet1!A1': 1, 'Sheet1!A2': 2, 'Sheet1!A3': 0,
+         'Sheet1!B1': '=%s(%s)' % (fn, args)}
+    want_builtin = {'AND': ('B', False), 'OR': ('B', False),
+                    'NOT': ('B', True), 'IF': ('N', 0.0), 'SUM': ('N', 3.0),
+                    'LEN': ('N', 1.0)}[fn]
+    try:
+        m = lib.compile_dict(d)
+        ns = dict(xl.FUNCTIONS)
+        ns[fn] = user
+        obs = {}
+        for who in order:
+            ev = xl.Evaluator(m, namespace=ns) if who == 'user' \
+                else xl.Evaluator(m)
+            obs[who] = lib.evaluate(m, 'Sheet1!B1', ev)
+    except Exception as err:  # noqa: BLE001
+        res.fail('override-exception:%s' % fn, 'values', exc_tag(err), d)
+        return res
+    if obs.get('user', ('N', float(want_user))) != ('N', float(want_user)):
+        res.fail('namespace-override:%s:%s' % (fn, '-'.join(order)),
+                 ('N', float(want_user)), obs['user'], d['Sheet1!B1'])
+    if obs.get('builtin', want_builtin) != want_builtin:
+        res.fail('namespace-override-leaks:%s:%s' % (fn, '-'.join(order)),
+                 want_builtin, obs['builtin'], d['Sheet1!B1'])
+    return res
 
 
 def _spell(case, res):
